@@ -16,7 +16,7 @@ import pandas as pd
 from vf import core, gen, pipe, symx
 
 ID = "C07"
-FORMULAS = ["y ~ center(x) + g", "y ~ C(k) + C(g) + x + (x|g)", "y ~ poly(x, 2, raw=True):f + scale(z)", "y ~ x + f + (1|g) + (f|h)", "y ~ shift(x) + g"]
+FORMULAS = ["y ~ center(x) + g", "y ~ C(k) + C(g) + x + (x + f|g)", "y ~ poly(x, 2, raw=True):f + scale(z)", "y ~ x + f + (1|g) + (f|h)", "y ~ shift(x) + g"]
 MODES = ["error", "silent", "warning"]
 
 
@@ -62,6 +62,7 @@ def frames(env):
         df, rows = gen.build_frame(env, cols, "str", order, prefix=prefix)
         if b == 1:
             df["k"] = df["k"].astype(float)  # the same ids stored as floats in another table
+            df["f"] = np.array([1.0 if v == "a" else 0.0 for v in df["f"]])  # ... and f recoded as a number there
         df = df.iloc[: 8 if b else len(df)].reset_index(drop=True) if b else df
         if unseen:
             col = list(df["g"].values)
@@ -106,6 +107,18 @@ def same_snap(env, a, b, label, info):
             ok = same_snap(env, a[k], b[k], label, info) and ok
         return ok
     if isinstance(a, np.ndarray) or isinstance(b, np.ndarray):
+        a, b = np.asarray(a), np.asarray(b)
+        if a.dtype == object or b.dtype == object or a.dtype.kind in "US" or b.dtype.kind in "US":
+            # a numeric term evaluated on a frame where the column holds labels: text cells are compared as text
+            sa = [(i, v) for i, v in enumerate(a.ravel().tolist()) if isinstance(v, str)]
+            sb = [(i, v) for i, v in enumerate(b.ravel().tolist()) if isinstance(v, str)]
+            if sa or sb:
+                if not env.prove(a.shape == b.shape and sa == sb, label + " (text cells)", info):
+                    return False
+                a, b = a.astype(object).copy(), b.astype(object).copy()
+                for i, _ in sa:
+                    a.ravel()[i] = 0
+                    b.ravel()[i] = 0
         return env.prove_equal(a, b, label, info)
     if isinstance(a, list) and a and isinstance(a[0], (symx.Sym, float)) and not isinstance(a[0], bool):
         return env.prove_equal(np.array(a, dtype=object), np.array(b, dtype=object), label, info)
